@@ -10,5 +10,6 @@ CONSTANTS
   MaxOps = 4
   MaxHeads = 2
   KeepHist = TRUE
+  InactiveRefusedAtOnce = TRUE
 INVARIANTS PoolTxsSpendable
 CHECK_DEADLOCK FALSE
